@@ -289,4 +289,6 @@ def main(tier):
     check_trailer_write(rep, mod, flags)
     check_adler_range(rep, mod)
     check_state_after_compare(rep, mod)
+    import c10
+    c10.check_stored_bound(rep, mod)
     return rep.finish()
